@@ -140,6 +140,7 @@ pub fn c07() -> Check {
             Workload { name: "big", f: big_c07, quick: 400, thorough: 20_000, flav: Flav::Plain },
         ],
         exhaustive: false,
+        aggregate: None,
     }
 }
 pub fn c08() -> Check {
@@ -158,6 +159,7 @@ pub fn c08() -> Check {
             Workload { name: "accrt", f: crate::checks::c08x::accrt_case, quick: 8_000, thorough: 400_000, flav: Flav::Checked },
         ],
         exhaustive: false,
+        aggregate: None,
     }
 }
 pub fn c09() -> Check {
@@ -174,6 +176,7 @@ pub fn c09() -> Check {
             Workload { name: "simmon", f: simmon_c09, quick: 1_500, thorough: 80_000, flav: Flav::Checked },
         ],
         exhaustive: false,
+        aggregate: None,
     }
 }
 pub fn c10() -> Check {
@@ -191,6 +194,7 @@ pub fn c10() -> Check {
             Workload { name: "wrap", f: wrap_c10, quick: 240, thorough: 12_000, flav: Flav::Checked },
         ],
         exhaustive: false,
+        aggregate: None,
     }
 }
 pub fn c11() -> Check {
@@ -209,6 +213,7 @@ pub fn c11() -> Check {
             Workload { name: "table", f: crate::checks::tables::c11_table, quick: 9_520, thorough: 9_520, flav: Flav::Checked },
         ],
         exhaustive: false,
+        aggregate: None,
     }
 }
 pub fn c12() -> Check {
@@ -227,6 +232,7 @@ pub fn c12() -> Check {
             Workload { name: "table", f: crate::checks::tables::c12_table, quick: 1_080, thorough: 1_080, flav: Flav::Checked },
         ],
         exhaustive: false,
+        aggregate: None,
     }
 }
 pub fn c13() -> Check {
@@ -244,6 +250,7 @@ pub fn c13() -> Check {
             Workload { name: "wrap", f: wrap_c13, quick: 240, thorough: 12_000, flav: Flav::Checked },
         ],
         exhaustive: false,
+        aggregate: None,
     }
 }
 pub fn c15() -> Check {
@@ -261,6 +268,7 @@ pub fn c15() -> Check {
             Workload { name: "sweep", f: sweep_c15, quick: 1_100, thorough: 55_000, flav: Flav::Checked },
         ],
         exhaustive: false,
+        aggregate: None,
     }
 }
 pub fn c16() -> Check {
@@ -278,6 +286,7 @@ pub fn c16() -> Check {
             Workload { name: "simmon", f: simmon_c16, quick: 1_500, thorough: 80_000, flav: Flav::Checked },
         ],
         exhaustive: false,
+        aggregate: None,
     }
 }
 pub fn c19() -> Check {
@@ -294,5 +303,6 @@ pub fn c19() -> Check {
             Workload { name: "simmon", f: simmon_c19, quick: 1_500, thorough: 80_000, flav: Flav::Checked },
         ],
         exhaustive: false,
+        aggregate: None,
     }
 }
